@@ -12,7 +12,7 @@ class FormatNode(BaseNode):
             return FormatNode(parser)
             
     def parse(self, env):
-        if env.nodes[-1].keyword!='str':
-            raise Exception("Format can be set only to string nodes", env.nodes[-1].code)
-        env.nodes[-1].format = self.value_raw
+        if env.property_target().keyword!='str':
+            raise Exception("Format can be set only to string nodes", env.property_target().code)
+        env.property_target().format = self.value_raw
         return None
